@@ -47,8 +47,10 @@ def shape_blog(cfg):
             a=(sa.Column(sa.Integer, server_default='3') if cfg.get('defaults') else sa.Column(sa.Integer)),
             article_id=sa.Column(sa.Integer, sa.ForeignKey('article.id')),
             article=sa.orm.relationship(Article, backref='tags'),
-            **vopts({'end_transaction_column_name': 'valid_to', 'transaction_column_name': 'txid'}
-                    if cfg.get('class_names') else None)))
+            **vopts(dict({'end_transaction_column_name': 'valid_to', 'transaction_column_name': 'txid'}
+                         if cfg.get('class_names') else {},
+                         # excl_fk: the foreign-key column is excluded, the relationship built on it is not
+                         **({'exclude': ['article_id']} if cfg.get('excl_fk') else {})))))
         Label = type('Label', (Base,), dict(
             __tablename__='label',
             id=sa.Column(sa.Integer, primary_key=True, autoincrement=False),
